@@ -80,12 +80,29 @@ def gen_cases(tier, seed):
                 z0 = zb_
             else:
                 z1 = zb_
+        grazing = False
+        if fam == "layered-uniform" and rng.random() < 0.25 and all(l_["kind"] == "uniform" for l_ in layers):
+            # the transmitted ray arrives 0.3 ... 6 degrees from the horizontal in a layer of lower index than the source's: the pair
+            # sits next to the total-reflection edge of r(theta), where a launch-angle scan has the least room
+            i_up = int(rng.integers(0, nl - 1))
+            j_dn = int(rng.integers(i_up + 1, nl))
+            if layers[i_up]["n"] < layers[j_dn]["n"]:
+                pinv = layers[i_up]["n"] * np.cos(np.radians(float(rng.uniform(0.3, 6.0))))
+                if all(layers[l_]["n"] > pinv for l_ in range(i_up, j_dn + 1)):
+                    z1 = float(rng.uniform(edges[i_up + 1] + 0.5, edges[i_up] - 0.5))
+                    z0 = float(rng.uniform(edges[j_dn + 1] + 0.5, edges[j_dn] - 0.5))
+                    rho = 0.0
+                    for l_ in range(i_up, j_dn + 1):
+                        top_, bot_ = min(edges[l_], z1) if l_ == i_up else edges[l_], max(edges[l_ + 1], z0) if l_ == j_dn else edges[l_ + 1]
+                        s_ = pinv / layers[l_]["n"]
+                        rho += (top_ - bot_) * s_ / np.sqrt(1 - s_ * s_)
+                    grazing = True
         ph = rng.uniform(0, 2 * np.pi)
         a = [float(rng.uniform(-2e3, 2e3)), float(rng.uniform(-2e3, 2e3)), float(z0)]
         b = [a[0] + float(rho * np.cos(ph)), a[1] + float(rho * np.sin(ph)), float(z1)]
         ints = False
-        cls_ = fam
-        if rng.random() < 0.06 and -1.0 > z0 > zmin + 1.0:
+        cls_ = fam + (":grazing-arrival" if grazing else "")
+        if not grazing and rng.random() < 0.06 and -1.0 > z0 > zmin + 1.0:
             # nearly coincident endpoints (0.1 micrometre ... 5 mm apart, any orientation): below 1e-5 of the coordinates themselves
             u_ = rng.normal(size=3)
             u_ /= np.linalg.norm(u_)
@@ -474,7 +491,9 @@ def kf_layered_angle_scan(case, viol):
     missed, so the number of solutions can differ between an endpoint pair and its swapped / moved copy."""
     d = viol["detail"]
     fine = d.get("n_with_20x_finer_angle_scan")
-    if not (str(d.get("family", "")).startswith("layered") and viol["clause"] == "swapping / moving the endpoints keeps the number of solutions"):
+    # only where r(theta) of one leg sequence can have two roots or isolated NaN values at all, i.e. with gradient sub-layers: in a
+    # stack of uniform layers r(theta) rises monotonically up to its total-reflection edge, which the tracer refines explicitly
+    if not (d.get("family") == "layered-exp" and viol["clause"] == "swapping / moving the endpoints keeps the number of solutions"):
         return False
     # explained by the scan resolution only if the finer scan makes the three executions agree without losing any solution
     # mechanism established by measurement: the number of solutions of at least one of the three executions changes when
